@@ -41,19 +41,27 @@ def net_harness(name, make, xshape, cshape=None):
         ensure(h, ctx, "C13.no-write", z3.BoolVal(not [w for w in ctx.writes if w[0] != "fresh"]), meta={"writes": str([w for w in ctx.writes if w[0] != "fresh"][:3])})
         ensure(h, ctx, "C13.result-is-fresh", z3.BoolVal(ctx.owner_of(P(out)) == "fresh"))
 
-    def native_call(h, inp):
+    def nat_module():
         torch.manual_seed(0)
         m = native_cast(make()).eval()
+        with torch.no_grad():       # generic weights (residual blocks are initialised near zero, which hides what happens inside them)
+            for p_ in m.parameters():
+                p_.copy_(torch.randn(p_.shape, dtype=p_.dtype) * 0.8)
+        return m
+
+    def native_call(h, inp):
+        m = nat_module()
         return m(tt(inp["x"]), tt(inp["context"])) if cshape else m(tt(inp["x"]))
 
     def native_clauses(h, inp, res):
-        torch.manual_seed(0)
-        m = native_cast(make()).eval()
+        m = nat_module()
         x = tt(inp["x"]); c = tt(inp["context"]) if cshape else None
-        rows = [m(x[i:i + 1], c[i:i + 1]) if cshape else m(x[i:i + 1]) for i in range(x.shape[0])]
+        # last row first: a random stream consumed in batch order would otherwise reproduce the batch result by coincidence
+        rows = [m(x[i:i + 1], c[i:i + 1]) if cshape else m(x[i:i + 1]) for i in reversed(range(x.shape[0]))][::-1]
         sd = {k: v.clone() for k, v in m.state_dict().items()}; xb = x.clone()
         m(x, c) if cshape else m(x)
-        return {"C12.row-independent": bool(torch.allclose(torch.cat(rows), res, atol=1e-6)),
+        rowwise = bool(torch.allclose(torch.cat(rows), res, atol=1e-6))
+        return {"C12.row-independent": rowwise, "C12.no-random-draw-in-evaluation": rowwise,
                 "C13.no-write": bool(torch.equal(xb, x)) and all(torch.equal(sd[k], v) for k, v in m.state_dict().items())}
     return Harness(f"net_{name}[]", run, post, native_call=native_call, native_clauses=native_clauses,
                    sample=lambda h, rng: {"x": rng.normal(size=xshape), **({"context": rng.normal(size=cshape)} if cshape else {})}, functions=[])
@@ -65,4 +73,9 @@ def nets_harnesses(tier):
         net_harness("ResidualNetBNctx", lambda: nets.ResidualNet(2, 2, hidden_features=3, context_features=2, num_blocks=1, use_batch_norm=True), (2, 2), (2, 2)),
         net_harness("MLP", lambda: nets.MLP((2,), (3,), hidden_sizes=[3]), (2, 2)),
         net_harness("ConvResidualNet", lambda: nets.ConvResidualNet(1, 2, hidden_channels=2, num_blocks=1, use_batch_norm=True), (2, 1, 2, 2)),
+        net_harness("ResidualNetDropout", lambda: nets.ResidualNet(2, 2, hidden_features=3, num_blocks=1, dropout_probability=0.5), (2, 2)),
+        net_harness("ConvResidualNetDropout", lambda: nets.ConvResidualNet(1, 2, hidden_channels=2, num_blocks=1, dropout_probability=0.5), (2, 1, 2, 2)),
+        net_harness("MADEDropout", lambda: __import__("nflows.transforms.made", fromlist=["MADE"]).MADE(3, 4, num_blocks=1, dropout_probability=0.5), (2, 3)),
+        net_harness("MADEffDropout", lambda: __import__("nflows.transforms.made", fromlist=["MADE"]).MADE(3, 4, num_blocks=1, use_residual_blocks=False, dropout_probability=0.5), (2, 3)),
+        net_harness("MADEndeDropout", lambda: __import__("nflows.nn.nde.made", fromlist=["MADE"]).MADE(3, 4, num_blocks=1, dropout_probability=0.5), (2, 3)),
     ]
